@@ -117,7 +117,7 @@ PLANS = {
     },
     'C17': {
         'level': 'model_checking', 'rule': RULE_HIST + '; server cookie behaviours (none, valid, changed, wrong client part, BADCOOKIE with/without cookie, TC) x virtual-time advances across the timers x source-address change; reference RFC 7873 client automaton replayed over the transmissions and the packets the library looked at', 'assumptions': ASSUME, 'targets': T,
-        'deadline': {'quick': 420, 'thorough': 2400},
+        'deadline': {'quick': 420, 'thorough': 3600},
         'jobs': [
             job('cookie', 'cookie', 'C17', {'quick': 5, 'thorough': 6}, 1,
                 wit=['c17_client_cookie_constant', 'c17_client_cookie_rotated', 'c17_server_cookie_echoed', 'c17_tcp_without_cookie', 'c17_badcookie_resend',
